@@ -405,6 +405,165 @@ theorem ip6_roundtrip (h : Ip6) (wf : h.WF) (rest : Bytes) :
   · omega
   · simp; omega
 
+/-! ## Ipv4Header -/
+
+theorem ip4_layout (h : Ip4) (wf : h.WF) (f : Field) (hf : f ∈ ipv4) :
+    extract f h.toBytes = h.get f.name := by
+  unfold Ip4.toBytes
+  rw [Ip4.first20_arith h wf]
+  obtain ⟨h1, h2, h3, h4, h5, h6, h7, h8, h9, h10, h11, h12⟩ := wf
+  have := bAt_lt h.src 0; have := bAt_lt h.src 1; have := bAt_lt h.src 2; have := bAt_lt h.src 3
+  have := bAt_lt h.dst 0; have := bAt_lt h.dst 1; have := bAt_lt h.dst 2; have := bAt_lt h.dst 3
+  have hd : b2n h.df < 2 := by unfold b2n; split <;> omega
+  have hm : b2n h.mf < 2 := by unfold b2n; split <;> omega
+  simp only [ipv4, List.mem_cons, List.mem_nil_iff, or_false] at hf
+  rcases hf with rfl | rfl | rfl | rfl | rfl | rfl | rfl | rfl | rfl | rfl | rfl | rfl | rfl | rfl | rfl <;>
+    simp [extract, Field.nBytes, Field.low, spanVal, Ip4.get, arr_toNat] <;> omega
+
+/-- the option area follows the fixed part unchanged and determines the length and the IHL. -/
+theorem ip4_options (h : Ip4) (wf : h.WF) :
+    h.toBytes.length = 20 + h.options.length ∧ h.toBytes.drop 20 = h.options ∧
+    h.toBytes.length = 4 * extract ⟨"ihl", 0, 4, 4⟩ h.toBytes ∧ h.writeRaw = h.toBytes := by
+  have l := ip4_layout h wf ⟨"ihl", 0, 4, 4⟩ (by simp [ipv4])
+  rw [l]
+  obtain ⟨h1, h2, h3, h4, h5, h6, h7, h8, h9, h10, h11, h12⟩ := wf
+  simp [Ip4.toBytes, Ip4.writeRaw, Ip4.first20, Ip4.get]
+  omega
+
+theorem ip4_set_wf (h : Ip4) (wf : h.WF) (f : Field) (hf : f ∈ ipv4) (v : Nat)
+    (hv : v < 2 ^ f.width) : (h.set f.name v).WF := by
+  obtain ⟨h1, h2, h3, h4, h5, h6, h7, h8, h9, h10, h11, h12⟩ := wf
+  simp only [ipv4, List.mem_cons, List.mem_nil_iff, or_false] at hf
+  rcases hf with rfl | rfl | rfl | rfl | rfl | rfl | rfl | rfl | rfl | rfl | rfl | rfl | rfl | rfl | rfl <;>
+    simp [Ip4.set, Ip4.WF] at hv ⊢ <;> omega
+
+theorem ip4_field_isolated (h : Ip4) (wf : h.WF) (f : Field) (hf : f ∈ ipv4)
+    (hs : f.name ∈ Ip4.settable) (v : Nat) (hv : v < 2 ^ f.width) :
+    (h.set f.name v).toBytes.length = h.toBytes.length ∧
+    (h.set f.name v).toBytes.drop 20 = h.toBytes.drop 20 ∧
+    extract f (h.set f.name v).toBytes = v ∧
+    ∀ g ∈ ipv4, g ≠ f → extract g (h.set f.name v).toBytes = extract g h.toBytes := by
+  have wf' := ip4_set_wf h wf f hf v hv
+  have o : (h.set f.name v).options = h.options := by
+    unfold Ip4.set; repeat' split
+    all_goals rfl
+  refine ⟨?_, ?_, ?_, ?_⟩
+  · rw [(ip4_options _ wf').1, (ip4_options _ wf).1, o]
+  · rw [(ip4_options _ wf').2.1, (ip4_options _ wf).2.1, o]
+  · rw [ip4_layout _ wf' f hf]
+    simp only [ipv4, List.mem_cons, List.mem_nil_iff, or_false] at hf
+    rcases hf with rfl | rfl | rfl | rfl | rfl | rfl | rfl | rfl | rfl | rfl | rfl | rfl | rfl | rfl | rfl <;>
+      simp [Ip4.set, Ip4.get, Ip4.settable, b2n] at hv hs ⊢ <;> split <;> omega
+  · intro g hg hne
+    rw [ip4_layout _ wf' g hg, ip4_layout _ wf g hg]
+    simp only [ipv4, List.mem_cons, List.mem_nil_iff, or_false] at hf hg
+    rcases hf with rfl | rfl | rfl | rfl | rfl | rfl | rfl | rfl | rfl | rfl | rfl | rfl | rfl | rfl | rfl <;>
+      rcases hg with rfl | rfl | rfl | rfl | rfl | rfl | rfl | rfl | rfl | rfl | rfl | rfl | rfl | rfl | rfl <;>
+      first | exact absurd rfl hne | simp [Ip4.set, Ip4.get, Ip4.settable] at hs ⊢
+
+/-! ## Ipv4Header, decoding (and the reader copies) -/
+
+theorem ip4_decode_in_range (b : Bytes) (h : Ip4) (r : Bytes)
+    (hd : Ip4.fromSlice b = .ok (h, r)) : h.WF := by
+  obtain ⟨a1, a2, a3, a4⟩ := Ip4.fromSlice_inv_aux b h r hd
+  rw [Ip4.fromSlice_ok_aux b a1 a2 a3 a4] at hd
+  cases hd
+  have := bAt_lt b 0; have := bAt_lt b 1; have := be16_lt b 2; have := be16_lt b 4
+  have := bAt_lt b 6; have := bAt_lt b 7; have := bAt_lt b 8; have := bAt_lt b 9
+  have := be16_lt b 10
+  have s1 := sub_length b 12 4 (by omega)
+  have s2 := sub_length b 16 4 (by omega)
+  have s3 := sub_length b 20 (bAt b 0 % 16 * 4 - 20) (by omega)
+  simp [Ip4.WF, s1, s2, s3]
+  omega
+
+theorem ip4_decode_layout (b : Bytes) (h : Ip4) (r : Bytes)
+    (hd : Ip4.fromSlice b = .ok (h, r)) (f : Field) (hf : f ∈ ipv4) (hr : f.name ≠ "reserved") :
+    extract f b = h.get f.name := by
+  obtain ⟨a1, a2, a3, a4⟩ := Ip4.fromSlice_inv_aux b h r hd
+  rw [Ip4.fromSlice_ok_aux b a1 a2 a3 a4] at hd
+  cases hd
+  have := bAt_lt b 0; have := bAt_lt b 1; have := bAt_lt b 2; have := bAt_lt b 3
+  have := bAt_lt b 4; have := bAt_lt b 5; have := bAt_lt b 6; have := bAt_lt b 7
+  have := bAt_lt b 8; have := bAt_lt b 9; have := bAt_lt b 10; have := bAt_lt b 11
+  have := bAt_lt b 12; have := bAt_lt b 13; have := bAt_lt b 14; have := bAt_lt b 15
+  have := bAt_lt b 16; have := bAt_lt b 17; have := bAt_lt b 18; have := bAt_lt b 19
+  have s3 := sub_length b 20 (bAt b 0 % 16 * 4 - 20) (by omega)
+  simp only [ipv4, List.mem_cons, List.mem_nil_iff, or_false] at hf
+  rcases hf with rfl | rfl | rfl | rfl | rfl | rfl | rfl | rfl | rfl | rfl | rfl | rfl | rfl | rfl | rfl <;>
+    simp [extract, Field.nBytes, Field.low, spanVal, Ip4.get, be16, bAt_sub_aux, s3, b2n] at hr ⊢ <;>
+    (try split) <;> omega
+
+theorem ip4_roundtrip (h : Ip4) (wf : h.WF) (rest : Bytes) :
+    Ip4.fromSlice (h.toBytes ++ rest) = .ok (h, rest) := by
+  have ho := ip4_options h wf
+  obtain ⟨h1, h2, h3, h4, h5, h6, h7, h8, h9, h10, h11, h12⟩ := wf
+  have wf : h.WF := ⟨h1, h2, h3, h4, h5, h6, h7, h8, h9, h10, h11, h12⟩
+  have hd : b2n h.df < 2 := by unfold b2n; split <;> omega
+  have hm : b2n h.mf < 2 := by unfold b2n; split <;> omega
+  have e : h.toBytes ++ rest = h.first20 h.checksum ++ (h.options ++ rest) := by
+    simp [Ip4.toBytes]
+  have b0 : bAt (h.toBytes ++ rest) 0 = 64 + (5 + h.options.length / 4) := by
+    rw [e, Ip4.first20_arith h wf]; simp; omega
+  have len : (h.toBytes ++ rest).length = 20 + h.options.length + rest.length := by
+    simp [ho.1]
+  rw [Ip4.fromSlice_ok_aux _ (by omega) (by omega) (by omega) (by omega)]
+  have hl : bAt (h.toBytes ++ rest) 0 % 16 * 4 = 20 + h.options.length := by omega
+  rw [hl]
+  have d : (h.toBytes ++ rest).drop (20 + h.options.length) = rest := by
+    rw [← ho.1]; simp
+  have o : sub (h.toBytes ++ rest) 20 (20 + h.options.length - 20) = h.options := by
+    rw [e]; unfold sub
+    have : (h.first20 h.checksum).length = 20 := by simp [Ip4.first20]
+    rw [List.drop_left' this]
+    simp
+  rw [d, o]
+  rw [e, Ip4.first20_arith h wf]
+  cases h with | mk dscp ecn tl id df mf fo ttl proto cks src dst opts =>
+  simp only at h1 h2 h3 h4 h5 h6 h7 h8 h9 h10 h11 h12 hd hm ⊢
+  have s1 : sub ([u8 (64 + (5 + opts.length / 4)), u8 (dscp * 4 + ecn), u8 (tl / 256 % 256), u8 (tl % 256),
+      u8 (id / 256 % 256), u8 (id % 256), u8 (b2n df * 64 + b2n mf * 32 + fo / 256), u8 (fo % 256),
+      u8 ttl, u8 proto, u8 (cks / 256 % 256), u8 (cks % 256), arr src 0, arr src 1, arr src 2, arr src 3,
+      arr dst 0, arr dst 1, arr dst 2, arr dst 3] ++ (opts ++ rest)) 12 4 = src := by
+    simp [sub, list4_eta src h9]
+  have s2 : sub ([u8 (64 + (5 + opts.length / 4)), u8 (dscp * 4 + ecn), u8 (tl / 256 % 256), u8 (tl % 256),
+      u8 (id / 256 % 256), u8 (id % 256), u8 (b2n df * 64 + b2n mf * 32 + fo / 256), u8 (fo % 256),
+      u8 ttl, u8 proto, u8 (cks / 256 % 256), u8 (cks % 256), arr src 0, arr src 1, arr src 2, arr src 3,
+      arr dst 0, arr dst 1, arr dst 2, arr dst 3] ++ (opts ++ rest)) 16 4 = dst := by
+    simp [sub, list4_eta dst h10, List.take_left' h10]
+  rw [s1, s2]
+  clear ho wf s1 s2 e b0 len hl d o
+  cases df <;> cases mf <;> simp [be16, b2n] <;> omega
+/-- the reader copy (`Ipv4Header::read`) extracts the same header as `from_slice`. -/
+theorem ip4_read_eq_from_slice (b : Bytes) (h : Ip4) (r : Bytes)
+    (hd : Ip4.fromSlice b = .ok (h, r)) : Ip4.read b = some (.ok h) := by
+  obtain ⟨a1, a2, a3, a4⟩ := Ip4.fromSlice_inv_aux b h r hd
+  rw [Ip4.fromSlice_ok_aux b a1 a2 a3 a4] at hd
+  cases hd
+  unfold Ip4.read
+  rw [if_neg (by omega)]
+  simp only
+  rw [if_neg (by omega), if_neg (by omega), if_neg (by omega), if_neg (by omega)]
+  have : (bAt b 0 % 16 - 5) * 4 = bAt b 0 % 16 * 4 - 20 := by omega
+  simp only [be16, this]
+
+/-- the reader copy (`Ipv6Header::read`) extracts the same header as `from_slice`. -/
+theorem ip6_read_eq_from_slice (b : Bytes) (h : Ip6) (r : Bytes)
+    (hd : Ip6.fromSlice b = .ok (h, r)) : Ip6.read b = some (.ok h) := by
+  unfold Ip6.fromSlice at hd
+  split at hd
+  · cases hd
+  · simp only at hd
+    split at hd
+    · cases hd
+    · cases hd
+      unfold Ip6.read
+      rw [if_neg (by omega)]
+      simp only
+      rw [if_neg (by omega), if_neg (by omega)]
+      have : bAt b 0 % 16 * 16 % 256 = bAt b 0 * 16 % 256 := by omega
+      simp only [be16, this]
+
 /-! ## non-vacuity -/
 
 example : Vlan.WF ⟨5, true, 0xABC, 0x8100⟩ := by decide
